@@ -17,12 +17,11 @@
 -/
 import TfelVerif.Common.M3
 import TfelVerif.C05.Lemmas
-import TfelVerif.C05.Props
 import TfelVerif.C05.GenDec12
 import TfelVerif.C05.GenDec3full
 
 namespace TfelVerif.C05.PropsDec
-open TfelVerif TfelVerif.Mandel TfelVerif.C05 TfelVerif.C05.Props
+open TfelVerif TfelVerif.Mandel TfelVerif.C05
 set_option linter.unusedVariables false
 set_option linter.unusedSectionVars false
 set_option linter.unusedSimpArgs false
